@@ -138,6 +138,10 @@ def _read_bits_slow(s):
 class _ReaderAlign:
     params = dict(bit_alignment=Int)
     modifies = ["_bit_offset"]
+    # the alignments of DSDL types are 1 and 8 (WFT of specs/c02.py): callers that pass A(T) prove it here once (cut) and
+    # are then split into the two cases; the function itself is verified for every integer alignment
+    cut = lambda s: {"alignment-is-1-or-8": OR(s.bit_alignment <= 0, s.bit_alignment == 1, s.bit_alignment == 8)}
+    case_split = lambda s: [s.bit_alignment == 8]
 
     def post(s):
         o = s.old.self
@@ -284,6 +288,10 @@ def _write_bits_slow(s):
 class _WriterAlign:
     params = dict(bit_alignment=Int)
     modifies = ["_buffer", "_bit_offset"]
+    # the alignments of DSDL types are 1 and 8 (WFT of specs/c02.py): callers that pass A(T) prove it here once (cut) and
+    # are then split into the two cases; the function itself is verified for every integer alignment
+    cut = lambda s: {"alignment-is-1-or-8": OR(s.bit_alignment <= 0, s.bit_alignment == 1, s.bit_alignment == 8)}
+    case_split = lambda s: [s.bit_alignment == 8]
 
     def post(s):
         o, w = s.old.self, s.self
@@ -292,6 +300,9 @@ class _WriterAlign:
         return {
             "no-op-for-nonpositive": IMPLIES(a <= 0, lambda: AND(new == o._bit_offset, SAME_BYTES(w._buffer, o._buffer))),
             "aligned": IMPLIES(a > 0, lambda: AND(new % a == 0, new >= o._bit_offset, new < o._bit_offset + a)),
+            # the two alignments that occur (A(T) is 1 or 8), stated without a symbolic divisor
+            "aligned-8": IMPLIES(a == 8, lambda: AND(new % 8 == 0, new >= o._bit_offset, new < o._bit_offset + 8)),
+            "aligned-1": IMPLIES(a == 1, new == o._bit_offset),
             "prefix": PREFIX_PRESERVED(w._buffer, o._buffer, o._bit_offset),
             "zero-padding": BITSVAL(w._buffer, o._bit_offset, new - o._bit_offset, unfold=False) == 0,
         }
@@ -739,6 +750,562 @@ def FIELDS_SERIALIZABLE(seq):
     return all(type(f.data_type).__name__ != "ServiceType" for f in seq)
 
 
+# ------------------------------------------------------------------------------------------------ array / composite encoding
+from pyvc.dynmodel import Dyn, DynV
+from pyvc import dynmodel as dm
+from pyvc import settheory as st
+from pyvc.settheory import MEM, kfold_s
+from .c02 import L as L_OF, A as A_OF, FIELD_TYPES
+
+
+def _nset_contains(ns, x, memo=None):
+    """native membership in the lazily represented set of specs/c01.NSet without enumerating it"""
+    memo = {} if memo is None else memo
+    key = (id(ns), x)
+    if key in memo:
+        return memo[key]
+    k, a = ns.kind, ns.args
+    if x < 0:
+        r = False
+    elif k in ("leaf", "set"):
+        r = x in a[0]
+    elif k == "pad":
+        r = x % a[1] == 0 and any(_nset_contains(a[0], y, memo) for y in range(max(0, x - a[1] + 1), x + 1))
+    elif k == "uni":
+        r = any(_nset_contains(c, x, memo) for c in a[0])
+    elif k == "cat":
+        r = _cat_contains(list(a[0]), x, memo)
+    elif k in ("rep", "rng"):
+        child, cnt = a
+        lo, hi = child.min(), child.max()
+        if lo == hi:
+            q = (x // lo) if lo else 0
+            ok = (x == q * lo) if lo else (x == 0)
+            r = ok and (q == cnt if k == "rep" else 0 <= q <= cnt) if lo else (x == 0)
+        else:
+            counts = [cnt] if k == "rep" else range(0, cnt + 1)
+            r = any(_rep_contains(child, c, x, memo) for c in counts if c * lo <= x <= c * hi)
+    else:
+        r = x in ns.elements()
+    memo[key] = r
+    return r
+
+
+def _cat_contains(children, x, memo):
+    if not children:
+        return x == 0
+    first, rest = children[0], children[1:]
+    return any(_nset_contains(first, y, memo) and _cat_contains(rest, x - y, memo) for y in range(first.min(), min(x, first.max()) + 1))
+
+
+def _rep_contains(child, c, x, memo):
+    key = ("rep", id(child), c, x)
+    if key in memo:
+        return memo[key]
+    if c == 0:
+        r = x == 0
+    else:
+        r = any(_nset_contains(child, y, memo) and _rep_contains(child, c - 1, x - y, memo)
+                for y in range(child.min(), min(x, child.max()) + 1))
+    memo[key] = r
+    return r
+
+
+def IN_L(x, t):
+    """x is one of the Specification's bit lengths of the type (ghost L of specs/c02.py)"""
+    if smt():
+        return MEM(x, L_OF(t))
+    return _nset_contains(L_OF(t), x)
+
+
+def DTAG(v, *tags):
+    """the dynamic value is of one of the builtin types"""
+    if smt():
+        return dm.tag_in(v.term, tags)
+    table = {dm.T_NONE: type(None), dm.T_BOOL: bool, dm.T_INT: int, dm.T_FLOAT: float, dm.T_STR: str, dm.T_BYTES: bytes,
+             dm.T_BYTEARRAY: bytearray, dm.T_LIST: list, dm.T_TUPLE: tuple, dm.T_DICT: dict}
+    return any((type(v) is table[t]) if t in (dm.T_INT, dm.T_BOOL) else isinstance(v, table[t]) for t in tags)
+
+
+def DLEN_OF(v):
+    if smt():
+        return dm.len_f(v.term)
+    return len(v)
+
+
+def ADVANCE(s):
+    return s.writer._bit_offset - s.old.writer._bit_offset
+
+
+def W_POST(s, t):
+    """What every _serialize_* function guarantees about the writer (called at a position aligned to A(T))."""
+    o, w = s.old.writer, s.writer
+    return {
+        "prefix": PREFIX_PRESERVED(w._buffer, o._buffer, o._bit_offset),
+        # the produced length is one of the Specification's lengths of the type (ghost L from specs/c02.py)
+        "length-in-L": IN_L(ADVANCE(s), t),
+        "aligned-end": ALIGNED_AT(t, w._bit_offset),
+    }
+
+
+def W_PRE(s, t):
+    return {"serializable": NOT(ISINST(t, "ServiceType")),
+            # alignment before each field / element (a caller that skips writer.align_to violates this)
+            "aligned-start": ALIGNED_AT(t, s.writer._bit_offset)}
+
+
+@contract(SD + "_serialize_element", props=["C06", "C14"])
+class _SerElement:
+    params = dict(writer=MutInvObjOf(WRITER), element_type=ObjOf(SERIALIZABLE), value=Dyn)
+    modifies_params = {"writer": ["_buffer", "_bit_offset"]}
+    raises_only_if = {"SerDesError": lambda s: NESTED(s.element_type), "ValueError": lambda s: True,
+                      "TypeError": lambda s: NESTED(s.element_type)}
+
+    def pre(s):
+        return W_PRE(s, s.element_type)
+
+    def post(s):
+        return W_POST(s, s.element_type)
+
+
+@contract(SD + "_serialize_field_value", props=["C06", "C14"])
+class _SerField:
+    params = dict(writer=MutInvObjOf(WRITER), field_type=ObjOf(SERIALIZABLE), value=Dyn)
+    modifies_params = {"writer": ["_buffer", "_bit_offset"]}
+    raises_only_if = {"SerDesError": lambda s: NESTED(s.field_type), "ValueError": lambda s: True,
+                      "TypeError": lambda s: NESTED(s.field_type)}
+
+    def pre(s):
+        return W_PRE(s, s.field_type)
+
+    def post(s):
+        return W_POST(s, s.field_type)
+
+
+def ELEM(t):
+    return AS(t, ARRAY)._element_type
+
+
+def PREFIX_W(t):
+    return AS(t, VARIABLE)._length_field_type._bit_length
+
+
+def ARRAY_INPUT_OK(t, v):
+    """input types accepted for an array value: str / bytes / bytearray for utf8 and byte arrays, also list / tuple for byte
+    arrays, list / tuple for all other arrays"""
+    return ITE(ISINST(ELEM(t), "UTF8Type"), DTAG(v, dm.T_STR, dm.T_BYTES, dm.T_BYTEARRAY),
+               ITE(ISINST(ELEM(t), "ByteType"), DTAG(v, dm.T_STR, dm.T_BYTES, dm.T_BYTEARRAY, dm.T_LIST, dm.T_TUPLE),
+                   DTAG(v, dm.T_LIST, dm.T_TUPLE)))
+
+
+def ARRAY_LEN_BAD(t, v):
+    """the number of elements does not fit the array (for inputs whose length is the element count, i.e. not str)"""
+    return ITE(ISINST(t, "FixedLengthArrayType"), DLEN_OF(v) != AS(t, ARRAY)._capacity, DLEN_OF(v) > AS(t, ARRAY)._capacity)
+
+
+@contract(SD + "_serialize_array", props=["C06", "C14"])
+class _SerArray:
+    params = dict(writer=MutInvObjOf(WRITER), schema=ObjOf(ARRAY), value=Dyn)
+    modifies_params = {"writer": ["_buffer", "_bit_offset"]}
+    raises_only_if = {"SerDesError": lambda s: True, "ValueError": lambda s: True, "TypeError": lambda s: True}
+    raises_here = {
+        "TypeError": lambda s: NOT(ARRAY_INPUT_OK(s.schema, s.value)),
+        # both array kinds reject a wrong element count (for a str input the count is that of its UTF-8 encoding)
+        "ArrayLengthError": lambda s: OR(DTAG(s.value, dm.T_STR), ARRAY_LEN_BAD(s.schema, s.value)),
+    }
+
+    def pre(s):
+        return W_PRE(s, s.schema)
+
+    def post(s):
+        d = W_POST(s, s.schema)
+        d["input-type-accepted"] = ARRAY_INPUT_OK(s.schema, s.value)
+        d["length-accepted"] = IMPLIES(NOT(DTAG(s.value, dm.T_STR)), NOT(ARRAY_LEN_BAD(s.schema, s.value)))
+        # implicit length prefix of a variable-length array: the number of elements
+        d["length-prefix"] = IMPLIES(AND(ISINST(s.schema, "VariableLengthArrayType"), NOT(DTAG(s.value, dm.T_STR))),
+                                     lambda: BITSVAL(s.writer._buffer, s.old.writer._bit_offset, PREFIX_W(s.schema),
+                                                     unfold=False) == DLEN_OF(s.value))
+        return d
+
+
+def _ser_array_inv(variable):
+    def inv(s):
+        o, w = s.old.writer, s.writer
+        t = s.schema
+        base = o._bit_offset + (PREFIX_W(t) if variable else 0)
+        d = {"prefix": PREFIX_PRESERVED(w._buffer, o._buffer, o._bit_offset),
+             "progress": MEM(w._bit_offset - base, kfold_s(L_OF(ELEM(t)), s.i)),
+             "element-aligned": ALIGNED_AT(ELEM(t), w._bit_offset)}
+        if variable:
+            d["length-prefix"] = BITSVAL(w._buffer, o._bit_offset, PREFIX_W(t), unfold=False) == LEN(s.seq)
+        return d
+
+    def triggers(s):
+        return [st.kfold_unfold(L_OF(ELEM(s.schema)), s.i)]
+
+    inv.triggers = triggers
+    return inv
+
+
+loop_invariant(SD + "_serialize_array", loop=0)(_ser_array_inv(False))
+loop_invariant(SD + "_serialize_array", loop=1)(_ser_array_inv(True))
+
+
+from .c02 import FIELDS
+from pyvc.speclib import FILTER, EXISTS_IDX, AT
+
+
+def NONPAD_FIELDS(t):
+    """the non-padding fields of a composite, in order"""
+    if smt():
+        return FILTER(t._attributes, lambda a: AND(ISINST(a, "Field"), NOT(ISINST(a, "PaddingField"))))
+    return list(t.fields_except_padding)
+
+
+def FNAME(f):
+    return f._name if smt() else f.name
+
+
+def DKEYS(v):
+    if smt():
+        return dm.keys_seq(speclib.CTX, v)
+    return list(v.keys())
+
+
+def UNION_BAD_SHAPE(obj):
+    return OR(NOT(DTAG(obj, dm.T_DICT)), lambda: DLEN_OF(obj) != 1)
+
+
+def UNION_KEY(obj):
+    return AT(DKEYS(obj), 0)
+
+
+def NAMES_A_VARIANT(t, key):
+    return EXISTS_IDX(FIELDS(t), lambda i, f: EQ(FNAME(f), key))
+
+
+def STRUCT_KEYS_VALID(t, obj):
+    """every key of the dict names a non-padding field of this structure"""
+    np = NONPAD_FIELDS(t)
+    if smt():
+        keys = DKEYS(obj)
+        i, j = z3.FreshConst(z3.IntSort(), "ki"), z3.FreshConst(z3.IntSort(), "fj")
+        name_j = np.at(speclib.CTX, j)._name
+        inner = z3.Exists([j], z3.And(0 <= j, j < np.length, name_j == z3.Select(keys.arr, i)), patterns=[z3.Select(np.arr, j)])
+        return z3.ForAll([i], z3.Implies(z3.And(0 <= i, i < keys.length), inner), patterns=[z3.Select(keys.arr, i)])
+    return FORALL_IDX(DKEYS(obj), lambda i, k: EXISTS_IDX(np, lambda j, f: EQ(FNAME(f), k), name="j"))
+
+
+def H_MULT(a, K, n):
+    """definitional instance (Lean Basic: multiples a K = {0, a, ..., K*a}): 0 <= n <= K -> n*a in multiples a K"""
+    if smt():
+        from pyvc.bittheory import _fact
+        from pyvc.values import Int as _I
+
+        a, K, n = _I.unwrap(a), _I.unwrap(K), _I.unwrap(n)
+        speclib.CTX.pc.append(z3.Implies(z3.And(0 <= n, n <= K), z3.Select(st.mults_f(a, K), n * a)))
+        return True
+    return True
+
+
+def HDR_W(t):
+    """width of the delimiter header (32 by the class invariant of DelimitedType; kept symbolic to match the code)"""
+    return AS(t, DELIMITED)._delimiter_header_type._bit_length
+
+
+def H_PAD(x):
+    """definitional instances (Lean Basic.pad: pad r x = (x + r - 1) / r * r) for the two alignments that occur"""
+    if smt():
+        from pyvc.values import Int as _I
+
+        x = _I.unwrap(x)
+        speclib.CTX.pc.append(z3.And(st.pad_f(z3.IntVal(8), x) == ((x + 7) / 8) * 8, st.pad_f(z3.IntVal(1), x) == x))
+        return True
+    return True
+
+
+def H_PADSET_IN(S, x):
+    """definitional instances (padset A r = A.image (pad r)) for r = 8 and r = 1: x in A -> pad r x in padset A r"""
+    if smt():
+        from pyvc.values import Int as _I
+
+        x = _I.unwrap(x)
+        A_ = S.term
+        for r in (8, 1):
+            speclib.CTX.pc.append(z3.Implies(z3.Select(A_, x), z3.Select(st.padset_f(A_, z3.IntVal(r)), st.pad_f(z3.IntVal(r), x))))
+        return True
+    return True
+
+
+def H_UNION_CHAIN(t):
+    """partial instances (set arguments fixed) of the prelude axioms unions-in, sumset-in, padset-in, pad-def for the layout
+    of this union: L = padset(sumset({tag width}, U_i L(variant i)), 8)"""
+    if smt():
+        ft = FIELD_TYPES(t)
+        F, n = st.lmap_f(ft.arr), ft.length
+        U = st.unions_f(F, n)
+        w = V_Int(TAG_W(t))
+        S = st.sumset_f(st.singleton_f(w), U)
+        i, x, y = z3.Ints("hu!i hu!x hu!y")
+        pc = speclib.CTX.pc
+        sel = z3.Select
+        pc.append(z3.ForAll([i, x], z3.Implies(z3.And(0 <= i, i < n, sel(sel(F, i), x)), sel(U, x)), patterns=[sel(sel(F, i), x)]))
+        pc.append(z3.ForAll([x], z3.Implies(sel(U, x), sel(S, w + x)), patterns=[sel(U, x)]))
+        pc.append(z3.ForAll([y], z3.Implies(sel(S, y), z3.And(sel(st.padset_f(S, z3.IntVal(8)), st.pad_f(z3.IntVal(8), y)),
+                                                              st.pad_f(z3.IntVal(8), y) == ((y + 7) / 8) * 8)),
+                            patterns=[sel(S, y)]))
+        return True
+    return True
+
+
+def V_Int(x):
+    from pyvc.values import Int as _I
+
+    return _I.unwrap(x)
+
+
+def TAG_W(t):
+    return AS(t, UNION)._tag_field_type._bit_length
+
+
+@contract(SD + "_serialize_composite", props=["C06", "C14"])
+class _SerComposite:
+    params = dict(writer=MutInvObjOf(WRITER), schema=ObjOf(COMPOSITE), obj=Dyn)
+    modifies_params = {"writer": ["_buffer", "_bit_offset"]}
+    raises_only_if = {"SerDesError": lambda s: True, "ValueError": lambda s: True, "TypeError": lambda s: True}
+    raises_here = {
+        "TypeError": lambda s: ISINST(s.schema, "ServiceType"),
+        "ValueError": lambda s: OR(AND(ISINST(s.schema, "UnionType"), lambda: UNION_BAD_SHAPE(s.obj)),
+                                   AND(ISINST(s.schema, "StructureType"),
+                                       lambda: OR(NOT(DTAG(s.obj, dm.T_DICT)), lambda: NOT(STRUCT_KEYS_VALID(s.schema, s.obj))))),
+        "UnionFieldError": lambda s: AND(ISINST(s.schema, "UnionType"), NOT(UNION_BAD_SHAPE(s.obj)),
+                                         lambda: NOT(NAMES_A_VARIANT(s.schema, UNION_KEY(s.obj)))),
+    }
+
+    # cuts at the final writer.align_to of the union branch: the unpadded length is tag width + a length of some variant
+    at_call = {"_BitWriter.align_to": lambda s, c: dict(_union_before_padding(s, c), **_struct_before_alignment(s, c)),
+               # structure loop: after the per-field alignment the position is in padset(SFold(first i fields), A(field i))
+               "_serialize_field_value": lambda s, c: _struct_field_aligned(s, c)}
+
+    def pre(s):
+        return {"aligned-start": ALIGNED_AT(s.schema, s.writer._bit_offset)}
+
+    def post(s):
+        t, o, w = s.schema, s.old.writer, s.writer
+        d = W_POST(s, t)
+        d["not-a-service"] = NOT(ISINST(t, "ServiceType"))
+        d["byte-aligned-end"] = w._bit_offset % 8 == 0
+        d["union-input"] = IMPLIES(ISINST(t, "UnionType"), lambda: AND(
+            NOT(UNION_BAD_SHAPE(s.obj)), NAMES_A_VARIANT(t, UNION_KEY(s.obj))))
+        d["struct-input"] = IMPLIES(ISINST(t, "StructureType"),
+                                    lambda: AND(DTAG(s.obj, dm.T_DICT), STRUCT_KEYS_VALID(t, s.obj)))
+        # union tag = index of the (first) variant named by the key
+        d["union-tag"] = IMPLIES(ISINST(t, "UnionType"), lambda: _tag_is_variant_index(s))
+        # delimiter header = byte length of the inner representation, followed by exactly that many bytes
+        # hint for length-in-L of a delimited type: 32 + 8 * n with n <= extent / 8 (definition of `multiples`)
+        d["hint-delimited"] = IMPLIES(ISINST(t, "DelimitedType"), lambda: H_MULT(
+            8, DIV(AS(t, DELIMITED)._extent, 8), DIV(ADVANCE(s) - 32, 8)))
+        # cut: the payload is a whole number of bytes that fits the extent (proved first, used by length-in-L)
+        d["cut-delimited-payload"] = IMPLIES(ISINST(t, "DelimitedType"), lambda: AND(
+            ADVANCE(s) >= 32, (ADVANCE(s) - 32) % 8 == 0, DIV(ADVANCE(s) - 32, 8) <= DIV(AS(t, DELIMITED)._extent, 8)))
+        d["cut-delimited-steps"] = IMPLIES(ISINST(t, "DelimitedType"), lambda: _delimited_membership_chain(s))
+        d["delimiter-header"] = IMPLIES(ISINST(t, "DelimitedType"), lambda: AND(
+            ADVANCE(s) >= 32, (ADVANCE(s) - 32) % 8 == 0,
+            BITSVAL(w._buffer, o._bit_offset, HDR_W(t), unfold=False) == LSB(DIV(ADVANCE(s) - 32, 8), HDR_W(t))))
+        return d
+
+
+def _struct_ctx(s):
+    """(loop index, F, M) when the path is inside the structure loop of _serialize_composite, else None"""
+    t = s.schema
+    if not smt():
+        return None
+    idx = getattr(s.ctx, "loop_indices", None)
+    g = ISINST(t, "StructureType")
+    if not idx or g is False or (not isinstance(g, bool) and not speclib.CTX.engine.feasible(speclib.CTX, g)):
+        return None
+    ft = FIELD_TYPES(t)
+    return idx[-1], st.lmap_f(ft.arr), st.amap_f(ft.arr)
+
+
+def _struct_before_alignment(s, c):
+    """at writer.align_to inside the structure loop: remember the unaligned prefix length (used by the next cut)"""
+    sc = _struct_ctx(s)
+    if sc is None:
+        return {}
+    s.ctx.__dict__["c06_unaligned"] = V_Int(c.self._bit_offset - s.old.writer._bit_offset)
+    return {}
+
+
+def _struct_field_aligned(s, c):
+    """at _serialize_field_value inside the structure loop, in small steps: the entry position is byte aligned; the
+    alignment of field i is Amap[i]; the position is pad(A, unaligned prefix length); hence it is in
+    padset(SFold(first i fields), A(field i))"""
+    sc = _struct_ctx(s)
+    y0 = getattr(s.ctx, "c06_unaligned", None)
+    if sc is None or y0 is None:
+        return {}
+    i, F, M = sc
+    y = V_Int(c.writer._bit_offset - s.old.writer._bit_offset)
+    a = V_Int(A_OF(c.field_type))
+    return {"entry-aligned": V_Int(s.old.writer._bit_offset) % 8 == 0,
+            "field-alignment": z3.Select(M, i) == a,
+            "aligned-position": z3.Or(z3.And(a == 8, y == st.pad_f(z3.IntVal(8), y0)), z3.And(a == 1, y == st.pad_f(z3.IntVal(1), y0))),
+            "aligned-prefix-length": z3.Select(st.padset_f(st.sfold_f(F, M, i), z3.Select(M, i)), y)}
+
+
+def _union_before_padding(s, c):
+    t = s.schema
+    if not smt():
+        return {}
+    from pyvc.values import Obj as _Obj
+
+    is_union = ISINST(t, "UnionType")
+    if is_union is False:
+        return {}
+    ft = FIELD_TYPES(t)
+    F, n = st.lmap_f(ft.arr), ft.length
+    U = st.unions_f(F, n)
+    w = V_Int(TAG_W(t))
+    S = st.sumset_f(st.singleton_f(w), U)
+    y = V_Int(c.self._bit_offset - s.old.writer._bit_offset)
+    g = is_union if not isinstance(is_union, bool) else z3.BoolVal(is_union)
+    if not speclib.CTX.engine.feasible(speclib.CTX, g):
+        return {}  # not on the union path
+    return {"variant-length": z3.Implies(g, z3.Select(U, y - w)),
+            "tagged-length": z3.Implies(g, z3.And(z3.Select(st.singleton_f(w), w), z3.Select(S, y))),
+            "padded-length": z3.Implies(g, z3.And(z3.Select(st.padset_f(S, z3.IntVal(8)), st.pad_f(z3.IntVal(8), y)),
+                                                  st.pad_f(z3.IntVal(8), y) == ((y + 7) / 8) * 8)),
+            "padded-in-L": z3.Implies(g, z3.Select(L_OF(t).term, st.pad_f(z3.IntVal(8), y)))}
+
+
+def _delimited_membership_chain(s):
+    """32 + 8n is in L(Delimited) = sumset({32}, multiples(8, extent / 8)), step by step (each conjunct is its own obligation)"""
+    t = s.schema
+    if not smt():
+        return True
+    n = V_Int(DIV(ADVANCE(s) - 32, 8))
+    K = V_Int(DIV(AS(t, DELIMITED)._extent, 8))
+    M = st.mults_f(z3.IntVal(8), K)
+    S32 = st.sumset_f(st.singleton_f(z3.IntVal(32)), M)
+    return AND(z3.Select(M, n * 8), z3.Select(st.singleton_f(z3.IntVal(32)), z3.IntVal(32)), z3.Select(S32, 32 + n * 8),
+               MEM(32 + n * 8, L_OF(t)))
+
+
+def _tag_is_variant_index(s):
+    t, o, w = s.schema, s.old.writer, s.writer
+    fs = FIELDS(t)
+    tag = BITSVAL(w._buffer, o._bit_offset, TAG_W(t), unfold=False)
+    key = UNION_KEY(s.obj)
+    if smt():
+        return AND(0 <= tag, tag < LEN(fs), EQ(FNAME(AT(fs, tag)), key),
+                   FORALL_IDX(fs, lambda j, f: NOT(EQ(FNAME(f), key)), hi=tag, name="tj"))
+    return 0 <= tag < len(fs) and fs[tag].name == key and all(f.name != key for f in fs[:tag])
+
+
+@loop_invariant(SD + "_serialize_composite", loop=0)
+def _ser_delimited_copy(s):
+    o, w = s.old.writer, s.writer
+    return {"prefix": PREFIX_PRESERVED(w._buffer, o._buffer, o._bit_offset),
+            "position": w._bit_offset == o._bit_offset + HDR_W(s.schema) + 8 * s.i,
+            "header": BITSVAL(w._buffer, o._bit_offset, HDR_W(s.schema), unfold=False) == LSB(LEN(s.seq), HDR_W(s.schema))}
+
+
+@loop_invariant(SD + "_serialize_composite", loop=3)
+def _ser_struct_fields(s):
+    o, w = s.old.writer, s.writer
+    ft = FIELD_TYPES(s.schema)
+    return {"prefix": PREFIX_PRESERVED(w._buffer, o._buffer, o._bit_offset),
+            "forward": w._bit_offset >= o._bit_offset,
+            "hint": AND(H_PAD(w._bit_offset - o._bit_offset),
+                        H_PADSET_IN(st.V.SymSet(st.sfold_f(st.lmap_f(ft.arr), st.amap_f(ft.arr), st._i(s.i))),
+                                    w._bit_offset - o._bit_offset)),
+            # offset in padset-then-sumset form: the layout fold of the first i fields (SFold of specs/c02.py)
+            "progress": MEM(w._bit_offset - o._bit_offset,
+                            st.V.SymSet(st.sfold_f(st.lmap_f(ft.arr), st.amap_f(ft.arr), st._i(s.i))))}
+
+
+def _ser_struct_triggers(s):
+    ft = FIELD_TYPES(s.schema)
+    F, M = st.lmap_f(ft.arr), st.amap_f(ft.arr)
+    return [st.sfold_unfold(F, M, s.i), st.sfold_unfold(F, M, 0)]
+
+
+_ser_struct_fields.triggers = _ser_struct_triggers
+
+
+@contract(SD + "_default_value", props=["C06"])
+class _DefaultValue:
+    """value used for a structure field that the input dict omits (interface used by _serialize_composite)"""
+    params = dict(schema=ObjOf(SERIALIZABLE))
+    returns = Dyn
+    verify = False
+    assumed = "used at the call site in _serialize_composite; not yet verified (no claim about the value is used there)"
+    raises_only_if = {"ValueError": lambda s: ISINST(s.schema, "ServiceType")}
+
+
+@contract(SD + "_normalize_relaxed_value", props=["C06"])
+class _NormalizeRelaxed:
+    """relaxed input forms -> explicit form (interface used by serialize)"""
+    params = dict(schema=ObjOf(SERIALIZABLE), value=Dyn)
+    returns = Dyn
+    verify = False
+    assumed = "used at the call site in serialize(relaxed=True); not yet verified (no claim about the value is used there)"
+    raises_only_if = {"ValueError": lambda s: True}
+
+
+@contract(SD + "serialize", props=["C06", "C14"])
+class _Serialize:
+    params = dict(schema=ObjOf(COMPOSITE), obj=Dyn, with_delimiter_header=Bool, relaxed=Bool)
+    returns = Bytes
+    raises_only_if = {"SerDesError": lambda s: True, "ValueError": lambda s: True, "TypeError": lambda s: True}
+    raises_here = {
+        "TypeError": lambda s: ISINST(s.schema, "ServiceType"),
+        "ValueError": lambda s: AND(s.with_delimiter_header, NOT(ISINST(s.schema, "DelimitedType"))),
+    }
+
+    def post(s):
+        t = s.schema
+        n = 8 * DLEN(s.result)
+        d = {
+            "not-a-service": NOT(ISINST(t, "ServiceType")),
+            "header-flag-only-for-delimited": IMPLIES(s.with_delimiter_header, ISINST(t, "DelimitedType")),
+            # the produced length is an element of the bit length set of the type - of the inner type when a delimited
+            # type is written without its header
+            "length-in-L": IMPLIES(OR(s.with_delimiter_header, NOT(ISINST(t, "DelimitedType"))), lambda: IN_L(n, t)),
+            "length-in-L-of-inner": IMPLIES(AND(NOT(s.with_delimiter_header), ISINST(t, "DelimitedType")),
+                                            lambda: IN_L(n, AS(t, DELIMITED)._inner)),
+            "cut-delimited-payload": IMPLIES(AND(s.with_delimiter_header, ISINST(t, "DelimitedType")), lambda: AND(
+                n >= 32, (n - 32) % 8 == 0, DIV(n - 32, 8) <= DIV(AS(t, DELIMITED)._extent, 8))),
+            "cut-delimited-steps": IMPLIES(AND(s.with_delimiter_header, ISINST(t, "DelimitedType")),
+                                           lambda: _top_delimited_chain(s, n)),
+            "delimiter-header": IMPLIES(AND(s.with_delimiter_header, ISINST(t, "DelimitedType")),
+                                        lambda: BITSVAL(s.result, 0, HDR_W(t), unfold=False) == LSB(DIV(n - 32, 8), HDR_W(t))),
+        }
+        return d
+
+
+def _top_delimited_chain(s, n):
+    t = s.schema
+    if not smt():
+        return True
+    k = V_Int(DIV(n - 32, 8))
+    K = V_Int(DIV(AS(t, DELIMITED)._extent, 8))
+    M = st.mults_f(z3.IntVal(8), K)
+    S32 = st.sumset_f(st.singleton_f(z3.IntVal(32)), M)
+    H_MULT(8, K, k)
+    return AND(z3.Select(M, k * 8), z3.Select(st.singleton_f(z3.IntVal(32)), z3.IntVal(32)), z3.Select(S32, 32 + k * 8),
+               MEM(32 + k * 8, L_OF(t)))
+
+
+@loop_invariant(SD + "serialize", loop=0)
+def _serialize_copy(s):
+    (w,) = [x for x in s.touched if x.cls.name == "_BitWriter"]
+    t = s.schema
+    return {"position": w._bit_offset == HDR_W(t) + 8 * s.i,
+            "header": BITSVAL(w._buffer, 0, HDR_W(t), unfold=False) == LSB(LEN(s.seq), HDR_W(t))}
+
+
 def TOP_HEADER(data):
     return BITSVAL(data, 0, 32, unfold=False)
 
@@ -1055,6 +1622,99 @@ def _build_des(which):
     return build
 
 
+def _gen_ser(rng, i):
+    d = _gen_writer(rng, i)
+    d["type"] = _gen_type(rng, composite_only=rng.random() < 0.5)
+    d["vseed"] = rng.randrange(10 ** 6)
+    d["corrupt"] = rng.choice([0, 0, 0, 1, 2, 3, 4, 5])
+    d["hdr"] = rng.random() < 0.4
+    return d
+
+
+def _corrupt(rng, t, v, how):
+    """make the value invalid in one of the ways the serializer must reject"""
+    from pydsdl import _serializable as S
+
+    if how == 0:
+        return v
+    if isinstance(t, S.ArrayType):
+        if how == 1 and isinstance(v, (list, bytes, str)):
+            return v + v[:1] * (t.capacity + 1 - len(v)) if len(v) else v  # too long
+        if how == 2 and isinstance(v, (list, bytes, str)) and len(v):
+            return v[:-1]  # too short for a fixed array
+        if how == 3:
+            return 17  # wrong input type
+        if how == 4 and isinstance(v, list):
+            return tuple(v)
+        return v
+    if isinstance(t, S.DelimitedType):
+        return _corrupt(rng, t.inner_type, v, how)
+    if isinstance(t, S.UnionType) and isinstance(v, dict):
+        if how == 1:
+            return {}
+        if how == 2:
+            return dict(v, extra=1)
+        if how == 3:
+            return {"nope": 0}
+        if how == 4:
+            return [1]
+        return v
+    if isinstance(t, S.StructureType) and isinstance(v, dict):
+        if how == 1:
+            return dict(v, nope=1)
+        if how == 2 and v:
+            w = dict(v)
+            w.pop(sorted(w)[0])  # omitted field -> default
+            return w
+        if how == 3:
+            return "text"
+        return v
+    if how == 3:
+        return "x"
+    return v
+
+
+def _build_ser(which):
+    def build(d):
+        import random
+        from pydsdl import _serdes, _serializable as S
+
+        t = _mk_any_type(d["type"])
+        if which == "array" and not isinstance(t, S.ArrayType):
+            raise ValueError("not an array")
+        if which in ("composite", "top") and not isinstance(t, S.CompositeType):
+            raise ValueError("not a composite")
+        rng2 = random.Random(d["vseed"])
+        v = _corrupt(rng2, t, _gen_value(rng2, t), d["corrupt"])
+        w = _mk_writer(d)
+        if _native_A_of(t) == 8:
+            w.align_to(8)
+        if which == "array":
+            return (lambda: _serdes._serialize_array(w, t, v)), {"writer": w, "schema": t, "value": v}
+        if which == "composite":
+            return (lambda: _serdes._serialize_composite(w, t, v)), {"writer": w, "schema": t, "obj": v}
+        if which == "element":
+            return (lambda: _serdes._serialize_element(w, t, v)), {"writer": w, "element_type": t, "value": v}
+        if which == "field":
+            return (lambda: _serdes._serialize_field_value(w, t, v)), {"writer": w, "field_type": t, "value": v}
+        hdr = d["hdr"]
+        return (lambda: _serdes.serialize(t, v, with_delimiter_header=hdr)), {
+            "schema": t, "obj": v, "with_delimiter_header": hdr, "relaxed": False}
+
+    return build
+
+
+def _native_A_of(t):
+    from .c02 import _native_A
+
+    return _native_A(t)
+
+
+NATIVE.add(SD + "_serialize_array", _gen_ser, _build_ser("array"))
+NATIVE.add(SD + "_serialize_composite", _gen_ser, _build_ser("composite"))
+NATIVE.add(SD + "_serialize_element", _gen_ser, _build_ser("element"))
+NATIVE.add(SD + "_serialize_field_value", _gen_ser, _build_ser("field"))
+NATIVE.add(SD + "serialize", _gen_ser, _build_ser("top"))
 NATIVE.add(SD + "_deserialize_array", _gen_des, _build_des("array"))
 NATIVE.add(SD + "_deserialize_composite", _gen_des, _build_des("composite"))
 NATIVE.add(SD + "_deserialize_element", _gen_des, _build_des("element"))
